@@ -44,7 +44,7 @@ def gen_materials(rng):
 
 def gen_slsa1(rng, ts=True):
     d = {"builder": {"id": "https://builder.example/" + docgen.hs(rng, 0.2)},
-         "recipe": subset(rng, {"type": "https://example.com/recipe", "definedInMaterial": rng.choice([0, 1, 7]),
+         "recipe": subset(rng, {"type": "https://example.com/recipe", "definedInMaterial": rng.choice([0, 1, 7, 2 ** 31, 2 ** 63 - 1, 2 ** 63, 2 ** 64 - 1]),
                                 "entryPoint": docgen.hs(rng, 0.4), "arguments": docgen.hs(rng, 0.4), "environment": docgen.hs(rng, 0.4)},
                           required=("type",)),
          "metadata": gen_metadata(rng, ts), "materials": gen_materials(rng)}
